@@ -62,12 +62,16 @@ assumed('loader.openPackageResource', params={'package': 'str', 'path': 'str'}, 
 assumed('urllib.request.url2pathname', params={'p': 'str'}, returns='str', pure=True)
 assumed('urllib.request.pathname2url', params={'p': 'str'}, returns='str', pure=True)
 assumed('os.path.abspath', params={'p': 'str'}, returns='str', pure=True)
-prim('frag_of', 'str -> str')
-prim('defrag_of', 'str -> str')
-assumed('url.urldefrag', params={'url': 'str'}, returns='Tuple[str, str]', pure=True,
-        ensures=[Clause('result == (defrag_of(url), frag_of(url))'), Clause('url_ok(url)')],
+assumed('urllib.parse.urldefrag', params={'url': 'str'}, returns='Tuple[str, str]', pure=True,
+        ensures=[Clause('result == (raw_defrag(url), raw_frag(url))'), Clause('url_ok(url)')],
         raises=[Raise('ValueError', when='not url_ok(url)')],
-        notes='urllib.parse.urldefrag + file:/// normalisation; ValueError for a malformed URL')
+        notes='urllib: (URL without fragment, fragment); ValueError for a malformed URL')
+contract('url.urlnormalize', params={'url': 'str'}, returns='str',
+         ensures=[Clause('result == file3(url)', carries='C18', label='file-urls-in-three-slash-form-others-unchanged')])
+contract('url.urldefrag', params={'url': 'str'}, returns='Tuple[str, str]',
+         ensures=[Clause('result == (defrag_of(url), frag_of(url))', carries='C18',
+                         label='fragment-split-off-file-url-normalised'), Clause('url_ok(url)')],
+         raises=[Raise('ValueError', when='not url_ok(url)', label='malformed-url')])
 assumed('str.splitsep2', params={'self': 'str', 'sep': 'str', 'maxsplit': 'int'}, returns='Seq[str]', pure=True,
         ensures=[Clause('len(result) >= 1 and len(result) <= maxsplit + 1')])
 
